@@ -171,6 +171,15 @@ def run(tier='quick'):
                         'blobs before it writes (necessary for keeping the bytes a snapshot cannot carry: trailing data, '
                         'default grid, unknown marker values, flags); how they are merged is not judged', floor=1)
     _whole_update(prog, cg, chk, P4)
+    from . import extra
+    P5 = chk.rule('P5', 'the decompressor hands the decoders exactly the bytes inflate() produced (sized from the stream\'s '
+                        'output counters, or a mismatch with the length prefix is rejected): a result sized from the prefix '
+                        'alone gives a foreign blob with an over-stated prefix a zero tail that is kept as trailing data and '
+                        'written back', floor=1)
+    extra.inflated_length_is_result_length(prog, chk, P5)
+    P6 = chk.rule('P6', 'the fixed-width primitives are exact for every value (rule L1 of C02): a rounded or sign-extended '
+                        'half changes bytes on re-encode', floor=14)
+    extra.primitives_exact(prog, chk, P6)
     return chk.finish('grammar extraction of the five 2.x codecs (encoder and decoder), field-type '
                       'resolution through the struct declarations, alias / member-assignment tracking '
                       'in the 2.x track setters')
